@@ -19,12 +19,15 @@ Require Import Verif.Model.C08 Verif.Spec.C08 Verif.Proof.C08.
 
 (* ---- headers ---- *)
 
-(* every header the backend sees is one of the gateway's own four, or is allowed by the
+(* every header the backend sees is one of the gateway's own four carrying the value the gateway
+   gives it (own_ok: X-Forwarded-For = the client address the router determined, X-Forwarded-Host =
+   the Host addressed, User-Agent / X-Forwarded-Via = the gateway's agent string), or is allowed by the
    endpoint list and by the backend list and carries exactly the client's values;
    every adapter, all lists (any case, duplicates, wildcard, empty), all requests *)
 Theorem C08_headers_sound : forall c r h,
   sent_h (outgoing c r) h <> [] ->
-  own h \/ (allowed_ep_h c h /\ allowed_be_h c h /\ sent_h (outgoing c r) h = client_h r h).
+  own_ok r h (sent_h (outgoing c r) h) \/
+  (allowed_ep_h c h /\ allowed_be_h c h /\ sent_h (outgoing c r) h = client_h r h).
 Proof. exact headers_sound_model. Qed.
 Print Assumptions C08_headers_sound.
 
@@ -178,13 +181,29 @@ Theorem C08_key_order_irrelevant : forall sraw (m m' : hmap) k,
 Proof. exact key_order_irrelevant. Qed.
 Print Assumptions C08_key_order_irrelevant.
 
+(* a client's value under a gateway-owned name reaches the backend only through the lists: a
+   header seen under such a name that is not allowed carries the gateway's value *)
+Theorem C08_gateway_values : forall c r h,
+  own h -> sent_h (outgoing c r) h <> [] -> ~ (allowed_ep_h c h /\ allowed_be_h c h) ->
+  own_value r h = Some (sent_h (outgoing c r) h).
+Proof. exact gateway_values. Qed.
+Print Assumptions C08_gateway_values.
+
+(* a malformed piece of the client's query text (bad escape, semicolon) is dropped alone: the
+   other parameters parse as without it, so (C08_wire_query_exact) they are forwarded as without it *)
+Theorem C08_malformed_piece_ignored : forall a junk,
+  parse_query junk = [] ->
+  parse_query (a ++ String amp junk) = parse_query a /\ parse_query (junk ++ String amp a) = parse_query a.
+Proof. exact malformed_piece_ignored. Qed.
+Print Assumptions C08_malformed_piece_ignored.
+
 (* ---- GraphQL backends (the stage between the filters and the rendering) ---- *)
 
 (* the allow lists bind a GraphQL backend as they bind a plain one; besides the gateway's four
    headers it sees only the stage's own Content-Type and Content-Length *)
 Theorem C08_gql_headers_sound : forall g c r h,
   sent_h (outgoing_gql g c r) h <> [] ->
-  own h \/ gql_own_hb g h = true \/
+  own_ok r h (sent_h (outgoing_gql g c r) h) \/ gql_own_hb g h = true \/
   (allowed_ep_h c h /\ allowed_be_h c h /\ sent_h (outgoing_gql g c r) h = client_h r h).
 Proof. exact gql_headers_sound_model. Qed.
 Print Assumptions C08_gql_headers_sound.
@@ -339,3 +358,13 @@ Proof.
     destruct (str_eqb k "query") eqn:E1; [apply str_eqb_eq in E1; subst; reflexivity|].
     destruct (str_eqb k "operationName") eqn:E2; [apply str_eqb_eq in E2; subst; reflexivity|discriminate].
 Qed.
+
+(* the client's X-Forwarded-Host is not listed: the backend gets the Host addressed, and the
+   malformed pieces of this kind parse to nothing *)
+Example C08_ex_gateway_value_and_junk :
+  sent_h (outgoing {| c_adapter := Gin; c_ep_headers := ["X-A"]; c_ep_query := []; c_be_headers := [];
+                      c_be_query := []; c_static := [] |}
+                   {| r_lines := [("X-Forwarded-Host", "evil.example"); ("X-A", "1")]; r_query := [];
+                      r_host := "gw"; r_ip := "192.0.2.7"; r_ua := "KrakenD" |}) XFH = ["gw"] /\
+  parse_query "b=%ZZ" = [] /\ parse_query "zz=1;y=2" = [] /\ parse_query "%" = [].
+Proof. repeat split. Qed.
